@@ -302,7 +302,7 @@ def gen_load(g, model, chain, dt_hint=None, overload=None, families=None):
     w_out = mot['w0'] / R                 # no-load speed at the output
     if families is None:
         families = r.sample(['const', 'visc', 'quad', 'sinpos', 'sintime',
-                             'step'], r.choice([1, 1, 2, 2, 3]))
+                             'step', 'coulomb'], r.choice([1, 1, 2, 2, 3]))
     if overload is None:
         overload = r.choice([0.2, 0.6, 1.0, 1.5])
     terms = []
@@ -315,6 +315,8 @@ def gen_load(g, model, chain, dt_hint=None, overload=None, families=None):
         elif f == 'quad':
             terms.append({'t': 'quad',
                           'c': r.uniform(0.0, 0.3) * k * J / max(w_out, 1e-9)})
+        elif f == 'coulomb':
+            terms.append({'t': 'coulomb', 'F': abs(amp) * r.uniform(0.2, 1.0)})
         elif f == 'sinpos':
             wv = g.logu(0.05, 5.0)
             if dt_hint:
@@ -464,6 +466,17 @@ def gen_dyn(g):
             sched.append(convert_live_op(g, chain))
         if g.chance(0.1) and not g.cfg.get('differential'):
             sched.append({'op': 'set_load', 'load': gen_load(g, model, chain)})
+        masters = {d['m'] for d in scn['decls'] if d['op'] != 'joint'}
+        free = [c for c in chain if c not in masters]
+        if g.chance(0.1) and free:
+            # (an element that is the master of a mating consults its own
+            # 'drives' link for its stresses: only the others can be given a
+            # second follower without changing their own behaviour)
+            x = r.choice(free)
+            sched.append({'op': 'branch_off',
+                          'element': {'kind': 'Flywheel', 'J': g.inertia(),
+                                      'name': f'branch{len(sched)}'},
+                          'decl': {'op': 'joint', 'm': x}})
         gears = [d for d in scn['decls'] if d['op'] == 'gear' and
                  d['s'] in chain and d['m'] in chain]
         if gears and g.chance(0.12):
@@ -482,7 +495,10 @@ def gen_dyn(g):
     scn['schedule'] = sched
     add_control(g, scn, model, chain, p=0.4)
     add_stops(g, scn, model, chain, p=0.25)
-    if g.chance(0.08) and not g.cfg.get('differential'):
+    if g.chance(0.08) and not g.cfg.get('differential') and \
+            not any(o['op'] == 'branch_off' for o in sched):
+        # (a branch re-routes 'drives': a powertrain assembled afterwards
+        # would follow the branch)
         add_remating_phase(g, scn, model, chain, k)
     return scn
 
@@ -633,7 +649,8 @@ def gen_lock(g):
                            families=r.choice([['const'], ['const'],
                                               ['const', 'sintime'],
                                               ['step'], ['const', 'visc'],
-                                              ['sinpos']]))
+                                              ['sinpos'], ['const', 'coulomb'],
+                                              ['const', 'coulomb']]))
     scn['init'] = gen_init(g, model, chain)
     sched = [gen_run(g, k, kdt=g.logu(0.02, 1.0))]
     for _ in range(r.choice([0, 1, 1, 2])):
@@ -1169,8 +1186,13 @@ def gen_ctrl(g, profile='ctrl'):
         if op['op'] == 'run':
             op['control'] = bool(scn['rules']) or g.chance(0.5)
     if not scn['rules']:
-        # an empty rule set is still a controller (default duty 1)
-        scn['rules'] = [{'kind': 'Scripted', 'table': {}}]
+        # an empty rule set is still a controller (default duty 1): either
+        # a PWMControl without any rule or one rule that never applies
+        if g.chance(0.5):
+            scn['rules'] = []
+            scn['empty_control'] = True
+        else:
+            scn['rules'] = [{'kind': 'Scripted', 'table': {}}]
         for op in sched:
             if op['op'] == 'run':
                 op['control'] = True
